@@ -10,6 +10,7 @@ mod scenarios;
 mod shrink;
 mod synctest;
 mod truth;
+mod twins;
 mod types;
 mod world;
 
